@@ -505,3 +505,10 @@ def collapsed_pairs_form_whole_groups(ctx):
     """a CollapseAs collapse is applied through impose_as / tools.connected: pairs that share members are united into one group whatever their order, so after the collapse every parameter equals its partner (shared with C16.j)"""
     from .c16 import connected_unites_groups
     connected_unites_groups(ctx)
+
+
+@rule('C11.m', min_instances=2)
+def final_solution_satisfies_the_applied_collapse(ctx):
+    """a collapse is applied by installing new constraints between iterations; the final solution satisfies it only if the solver's stored all-time best does not outlive that change (shared with C03.f)"""
+    from .c03 import best_survives_a_change_of_constraints
+    best_survives_a_change_of_constraints(ctx)
